@@ -835,11 +835,6 @@ def oracle_attrs(ctx, reg, obs, ver, state, when, err=None):
     name = OT_OF[CLASS_OF_SECRET(reg['secret'])].name
     witness = {'registered': jsonable(reg['secret']), 'attributes': jsonable(reg['attrs']), 'expected': jsonable(exp), 'returned': jsonable(obs),
                'registered_under': reg['ver'], 'read_under': ver, 'when': when}
-    if obs is None and ver >= (2, 0) and reg['secret']['k'] == 'cert' and (err or '').startswith('NotImplementedError'):
-        ctx.count('oracle.known.certificate-type-2.0-client')
-        ctx.violation({'op': 'GET_ATTRIBUTES', 'otype': 'CERTIFICATE', 'version': '2.0', 'client': 'NotImplementedError'}, witness,
-                      'ProxyKmipClient.get_attributes raises NotImplementedError for a certificate under KMIP 2.0 (Certificate Type tag)')
-        return
     if obs is not None:
         untyped = [(n, i, (v[0], v[1], E.NameType.UNINTERPRETED_TEXT_STRING.value) if n == 1 else v) for n, i, v in exp]
         if obs == untyped:
